@@ -559,8 +559,8 @@ def check_update_context(ctx):
                         # `X[k] = {}` only under `if k not in X or not isinstance(X[k], dict)` (X, k: those of the store itself)
                         test = A.enclosing(n, (ast.If,))
                         ok = test is not None and any(n is b or n in list(ast.walk(b)) for b in test.body) \
-                            and "%s not in %s" % (A.src(t.slice), A.src(t.value)) in A.src(test.test) \
-                            and "not isinstance(%s, dict)" % A.src(t) in A.src(test.test)
+                            and _disjunction(test.test) == {("%s in %s" % (A.src(t.slice), A.src(t.value)), False),
+                                                            ("isinstance(%s, dict)" % A.src(t), False)}
                         ctx.check("C08-d", ok, n, "UpdateContext replaces an existing sub-dictionary on the key path by {} (`%s` not guarded by "
                                   "'missing or not a dict')" % A.src(n), detail="{} stored only where the path is missing or not a dict")
                     else:
@@ -570,6 +570,28 @@ def check_update_context(ctx):
         if isinstance(n, (ast.Delete,)) or (isinstance(n, ast.Call) and isinstance(n.func, ast.Attribute)
                                             and n.func.attr in ("pop", "clear", "popitem") and A.root_name(n.func.value) in into_context):
             ctx.violation("C08-d", n, "UpdateContext removes items from the context (`%s`)" % A.short(n, 50))
+
+
+def _disjunction(test, pol=True):
+    """The test as a set of (atom source, polarity) when, with negations pushed inwards (De Morgan), it is a disjunction of
+    literals (`a or b`, `not (a' and b')`); None otherwise.  `x not in y` is the atom `x in y` negated."""
+    if isinstance(test, ast.UnaryOp) and isinstance(test.op, ast.Not):
+        return _disjunction(test.operand, not pol)
+    if isinstance(test, ast.BoolOp):
+        is_or = isinstance(test.op, ast.Or) == pol
+        if not is_or:
+            return None
+        out = set()
+        for v in test.values:
+            d = _disjunction(v, pol)
+            if d is None:
+                return None
+            out |= d
+        return out
+    if isinstance(test, ast.Compare) and len(test.ops) == 1 and isinstance(test.ops[0], (ast.In, ast.NotIn)):
+        positive = isinstance(test.ops[0], ast.In)
+        return {("%s in %s" % (A.src(test.left), A.src(test.comparators[0])), pol == positive)}
+    return {(A.src(test), pol)}
 
 
 def check_delete_context(ctx):
